@@ -249,8 +249,6 @@ class ConveyorOracle:
                     self.viol("C12", "exact_travel", "undisturbed-journey-took-other-than-belt-length/speed" +
                               (":ragged-geometry" if self.ragged else ""),
                               {"item": ir.iid, "put": p, "ready": r, "travel": r - p, "ragged_geometry": self.ragged})
-            elif not self.acc and getattr(ir, "in_stall", False):
-                mon.counters["c13_na2_skipped_entered_during_stall"] += 1
             elif not self.acc:
                 # ---- NA2: moved time between the two readings of 'stalled'
                 mon.counters["c13_na2_checked"] += 1
@@ -258,8 +256,11 @@ class ConveyorOracle:
                 hi = (r - p) - sn
                 if T < lo - tol or T > hi + tol:
                     canc = any(p - tol <= c <= r + tol for c in self.cancel_times)
+                    if getattr(ir, "in_stall", False):
+                        mon.counters["c13_na2_checked_entered_during_stall"] += 1
                     self.viol("C13", "NA2_moved_time", "non-accumulating:moved-time-differs-from-belt-travel-time" +
                               (":advanced-during-stall" if hi < T - tol else ":lost-progress") +
+                              (":entered-during-stall" if getattr(ir, "in_stall", False) else "") +
                               (":after-cancel-of-granted-retrieval" if canc else ""),
                               {"item": ir.iid, "put": p, "ready": r, "stall_narrow": sn, "stall_wide": sw,
                                "moved_min": lo, "moved_max": hi, "admitted_during_stall": self.puts_in_stall > 0})
